@@ -57,6 +57,9 @@ func stuckWitness(tag string) (bool, string) {
 	n := runtime.Stack(buf, true)
 	s := string(buf[:n])
 	prodParked, workerParked := false, false
+	if !strings.Contains(s, "ConcurrentQueue).Start.func1") {
+		workerParked = true // no worker at all: nothing will ever move a pending item
+	}
 	for _, g := range strings.Split(s, "\n\n") {
 		if (strings.Contains(g, "[chan send") || strings.Contains(g, "[select")) && strings.Contains(g, "main."+tag+"(") {
 			prodParked = true
